@@ -424,6 +424,15 @@ func runC01(ctx *harness.Ctx) {
 		e := es[rapid.IntRange(0, len(es)-1).Draw(t, "entry")]
 		c01One(ctx, t, "generated-long", e, c.Text)
 	})
+	// exhaustive size sweep: list / nesting forms at every size 0..300 (the unparsed text can be longer than the input:
+	// JOIN -> INNER JOIN ..., so a size threshold in the parser shows as "accepted, but its SQL() is rejected")
+	ctx.Leg("size-sweep", func() {
+		forSweep(ctx, func(entry, src string, n int) bool {
+			c01One(ctx, nil, "size-sweep", entryByName[entry], src)
+			return ctx.ViolationCount() < 6
+		})
+		ctx.Exhaustive(fmt.Sprintf("%d size-sweep templates x every size 0..%d", len(sweepTemplates), sweepMax), ctx.ViolationCount() == 0)
+	})
 	ctx.Rapid("generated-list", ctx.Pick(1500, 30000), func(t *rapid.T) {
 		kind := rapid.SampledFrom([]string{"query", "ddl", "dml"}).Draw(t, "kind")
 		n := rapid.IntRange(2, 3).Draw(t, "n")
@@ -801,6 +810,10 @@ func runC16(ctx *harness.Ctx) {
 			cased := gen.Recase(t, ps)
 			tail := gen.Respace(t, ps, gen.RenderOpts{})
 			re := gen.Text(ps, tail)
+			if fp := farPrefix(t, 150, false); fp != "" {
+				re = fp + re // a very large leading gap is a re-spelling too
+				ctx.Class("far-offset")
+			}
 			comments := strings.Count(re, "/*") + strings.Count(re, "--") + strings.Count(re, "#") + strings.Count(re, "//")
 			cs := &harness.Case{Leg: "generated", Entry: e.Name, Input: c.Text, Aux: map[string]string{"respelled": re}}
 			ctx.Eval(1)
